@@ -11,7 +11,8 @@ FAMILIES = ['depth1', 'depth2', 'depth3', 'depth4', 'reuse-diff-tr',
             'reuse-same-tr', 'fill-num', 'fill-inline3', 'fill-inline12',
             'fill-star', 'trcl-only', 'both', 'filler-trcl', 'filler-compl',
             'clip', 'both-identity-fill', 'shared-surface-number',
-            'reuse-int-translations', 'reuse-mirror', 'universe-imp0', 'mixed']
+            'reuse-int-translations', 'reuse-mirror', 'universe-imp0',
+            'facet-universe', 'negative-universe', 'mixed']
 
 SLOTS = [(-5.0, -5.0, 0.0), (0.0, -5.0, 0.5), (5.0, -5.0, -0.5),
          (-5.0, 0.0, 0.5), (0.0, 0.0, 0.0), (5.0, 0.0, 0.3),
@@ -45,10 +46,38 @@ class Builder:
         self.next_u += 1
         base = 100 * unum
         style = style or rng.choice(['sphere', 'plane-sphere', 'union',
-                                     'cyl', 'ellipsoid'])
+                                     'cyl', 'ellipsoid', 'facets'])
         cen = [rnd(rng, -0.5, 0.5), rnd(rng, -0.5, 0.5), rnd(rng, -0.5, 0.5)]
         rad = rnd(rng, 0.5 * size, 0.8 * size)
         surfs = []
+        if style == 'facets':
+            # three slabs cut by two opposite facets of one macrobody
+            kind = rng.choice(['rpp', 'box', 'rcc'])
+            if kind == 'rpp':
+                par = [cen[0] - 0.4 * rad, cen[0] + 0.5 * rad,
+                       cen[1] - rad, cen[1] + rad, cen[2] - rad, cen[2] + rad]
+                pair = (1, 2)
+            elif kind == 'box':
+                par = [cen[0] - 0.4 * rad, cen[1] - rad, cen[2] - rad,
+                       0.9 * rad, 0, 0, 0, 2 * rad, 0, 0, 0, 2 * rad]
+                pair = (1, 2)
+            else:
+                par = [cen[0], cen[1], cen[2] - 0.4 * rad, 0, 0, 0.9 * rad,
+                       2 * rad]
+                pair = (2, 3)
+            par = [round(float(v), 3) for v in par]
+            self.deck.surfs.append(M.Surf(base + 1, kind, par))
+            s1 = base + 1
+            geoms = [M.S(s1, facet=pair[0]),
+                     M.AND(M.S(-s1, facet=pair[0]), M.S(-s1, facet=pair[1])),
+                     M.S(s1, facet=pair[1])]
+            cells = []
+            for j, geom in enumerate(geoms, start=1):
+                mat, rho = self.material()
+                cells.append(M.Cell(base + j, mat=mat, rho=rho, geom=geom,
+                                    imp={'n': '1'}, u=unum))
+            self.deck.cells.extend(cells)
+            return unum
         if style == 'cyl':
             surfs.append(M.Surf(base + 1, 'c/z', [cen[0], cen[1], rad]))
         elif style == 'ellipsoid':
@@ -350,6 +379,22 @@ def build(rng, family):
             ucells = [c for c in deck.cells if c.u == uni]
             for cel in rng.sample(ucells, rng.randint(1, len(ucells))):
                 cel.imp = {'n': '0'}
+            add(rng.choice(['num', 'inline12', 'inline3']), uni, slots[k])
+    elif family == 'facet-universe':
+        for k in range(rng.randint(1, 2)):
+            uni = bld.universe(0, style='facets')
+            add(rng.choice(['num', 'inline12', 'star', 'inline3']), uni,
+                slots[k])
+        uni = bld.universe(0, style='facets')
+        add('none', uni, slots[2], trcl_form='inline12')
+    elif family == 'negative-universe':
+        # u=-n: same universe n (the sign only tells MCNP that the cell is
+        # not truncated by the filled cell)
+        for k in range(rng.randint(1, 2)):
+            uni = bld.universe(rng.randint(0, 1), size=1.0)
+            for cel in deck.cells:
+                if cel.u == uni and rng.random() < 0.7:
+                    cel.u_negative = True
             add(rng.choice(['num', 'inline12', 'inline3']), uni, slots[k])
     elif family == 'filler-trcl':
         uni = bld.universe(0, style='plane-sphere')
